@@ -18,6 +18,7 @@ MP = "EasyFEA.Models.InElastic._materialpoint"
 
 
 def run(ctx):
+    ctx.attempt(committed_state_roundtrip_rule, ctx)
     from ..shared import parameter_threading_rule as _ptr
 
     ctx.attempt(committed_state_invariance_rule, ctx)
@@ -1407,3 +1408,67 @@ def elastic_degeneration_rule(ctx, rid="R19.4"):
         r.fail(f.qualname, "elastic-path", f.file, f.lineno, "__Integrate_3d", f"material without internal variables: {bad}: it is not exactly linear elastic")
     else:
         r.ok("empty layout: (C eps, C, state unchanged, converged)")
+
+
+def committed_state_roundtrip_rule(ctx, rid="R19.25"):
+    """'the stored history ... brings back exactly the internal variables that were current when iteration i was saved':
+    InElastic.Save_Iter and Set_Iter are interpreted on a simulation holding a trial state z = [1, 2] and an older committed
+    state [9, 9] (super().Save_Iter / Set_Iter of the base class run too, history in memory): after Save_Iter the committed
+    state AND the state stored in the iteration are the trial state, as independent copies; after a further trial state
+    [5, 6] and Set_Iter(0) the committed and the trial state are [1, 2] again, and editing one does not reach the other nor
+    the history."""
+    from ..xeval import Interp, XObj, XRaise, Sink
+    from ..xarray import XArray
+
+    repo = ctx.repo
+    sim = repo.cls("EasyFEA.Simulations._inelastic.InElastic")
+    base = repo.cls("EasyFEA.Simulations._simu._Simu")
+    fs, fr = sim.methods["Save_Iter"], sim.methods["Set_Iter"]
+    r = ctx.rule(rid, "InElastic.Save_Iter commits the trial state and stores THAT state (independent copies) in the iteration; Set_Iter brings the committed and the trial state back to the stored one", min_instances=2)
+    r.instance(fn=fs.qualname)
+    z = {"A": XArray((2,), [1, 2])}
+    u = XArray((4,), [7, 7, 7, 7])
+    sets = []
+    o = XObj(sim, {
+        sim.mangle("__z"): z, sim.mangle("__zOld"): {"A": XArray((2,), [9, 9])}, "displacement": u,
+        base.mangle("__list_results"): [], base.mangle("__indexMesh"): 0, base.mangle("__isNonLinear"): False, "folder": "", base.mangle("__Niter"): 0,
+        base.mangle("__Update_mesh"): lambda *a, **k: None, "problemType": "elastic", "_Set_solutions": lambda *a, **k: sets.append(a), "Need_Update": lambda *a, **k: None,
+    })
+    I = Interp(repo, extra_builtins={"MPI_SIZE": 1, "MPI_RANK": 0, "Tic": lambda *a, **k: Sink()})
+    vals = lambda d, k="A": [int(x) for x in d[k].data] if isinstance(d, dict) and k in d else None
+    try:
+        I.call_function(fs, [], self_obj=o)
+    except XRaise as e:
+        r.fail(fs.qualname, "raises", fs.file, fs.lineno, "InElastic.Save_Iter", f"raises {e}")
+        return
+    hist = o.attrs.get(base.mangle("__list_results"))
+    entry = hist[0] if hist else None
+    zo = o.attrs.get(sim.mangle("__zOld"))
+    bad = None
+    if vals(zo) != [1, 2]:
+        bad = f"after Save_Iter the committed state is {vals(zo)}, the trial state was [1, 2]"
+    elif not isinstance(entry, dict) or vals(entry.get("state")) != [1, 2]:
+        bad = f"the iteration stores the state {vals(entry.get('state')) if isinstance(entry, dict) else entry!r}; the state committed at this iteration is [1, 2] (the older committed state was [9, 9]): restoring this iteration rolls the history back by one increment"
+    elif entry["state"]["A"] is zo["A"] or entry["state"]["A"] is z["A"] or zo["A"] is z["A"]:
+        bad = "the stored, the committed and the trial state share one array: a later in-place write reaches the saved history"
+    if bad:
+        r.fail(fs.qualname, "commit-store", fs.file, fs.lineno, "InElastic.Save_Iter", bad)
+        return
+    r.ok("Save_Iter: committed = stored = trial state, three independent arrays")
+    # a further trial state, then the restore
+    r.instance(fn=fr.qualname)
+    o.attrs[sim.mangle("__z")] = {"A": XArray((2,), [5, 6])}
+    o.attrs["Get_results"] = None
+    o.attrs.pop("Get_results")
+    try:
+        I.call_function(fr, [0], self_obj=o)
+    except XRaise as e:
+        r.fail(fr.qualname, "raises", fr.file, fr.lineno, "InElastic.Set_Iter", f"raises {e}")
+        return
+    zo, zt = o.attrs.get(sim.mangle("__zOld")), o.attrs.get(sim.mangle("__z"))
+    if vals(zo) != [1, 2] or vals(zt) != [1, 2]:
+        r.fail(fr.qualname, "restore", fr.file, fr.lineno, "InElastic.Set_Iter", f"after Set_Iter(0) the committed state is {vals(zo)} and the trial state {vals(zt)}; iteration 0 was saved with [1, 2]")
+    elif zo["A"] is zt["A"] or zo["A"] is entry["state"]["A"] or zt["A"] is entry["state"]["A"]:
+        r.fail(fr.qualname, "restore-alias", fr.file, fr.lineno, "InElastic.Set_Iter", "after Set_Iter the committed state, the trial state and the stored iteration share an array")
+    else:
+        r.ok("Set_Iter(0): committed and trial state restored as independent copies")
